@@ -845,6 +845,7 @@ def sync_projects(
                 exclude=exclude,
                 doc_sync=doc_sync,
                 recursive=recursive,
+                deep=deep,
                 dry_run=proxy,  # used as internal argument to forward the proxy
             )
             logger.more(f"Synchronized job '{src_job}'.")
